@@ -280,6 +280,10 @@ fn replay(path: &str) -> i32 {
     println!("key:      {}", v["key"]);
     println!("what:     {}", v["what"]);
     println!("cfg:      {}", cfg.describe());
+    if cmds.is_empty() {
+        println!("this finding is a statistic over a whole sweep and records no frame sequence: re-run the check that reported it");
+        return 0;
+    }
     match exec_fresh(&cfg, &cmds) {
         Ok(obs) => {
             for (c, o) in cmds.iter().zip(obs.iter()) {
